@@ -119,7 +119,9 @@ C03_NonTrivial(c, r, v) == \E m \in v.roots : Cardinality(YsOf(c, r, v, m)) >= 2
 -----------------------------------------------------------------------------
 (* C04 -- Nodes never overlap and keep the configured spacing.             *)
 (* Domain: size-aware positioners.                                         *)
-C04_Applies(c, r, v) == v.ok /\ c.p4 \in SizeAware
+\* LayerSpacing > 0: with LayerSpacing 0 and zero-height nodes consecutive bands coincide (C03 carves the same case out) and
+\* "the nodes of one band" can no longer be read off the drawing
+C04_Applies(c, r, v) == v.ok /\ c.p4 \in SizeAware /\ c.ls > 0
 Overlap(a, b) == a.x < b.x + b.w /\ b.x < a.x + a.w /\ a.y < b.y + b.h /\ b.y < a.y + a.h
 C04_Fail(c, r, v) ==
     If(r.fin = 1 /\ \A k \in DOMAIN r.nodes : r.nodes[k].x >= 0 /\ r.nodes[k].y >= 0, "FiniteNonNeg")
@@ -219,7 +221,7 @@ C14_NonTrivial(c, r, v) == (\E k \in Routed(r) : r.oe[k].ahs = 1) \/ ~IsSimple(c
 -----------------------------------------------------------------------------
 (* C16 -- VAlign centres and PackRight right-aligns every band with exact  *)
 (* spacing.  Domain: connected input, helper nodes visible in the output.  *)
-C16_Applies(c, r, v) == v.ok /\ c.virt = 1 /\ c.p4 \in {"valign", "pack"} /\ Cardinality(v.roots) = 1
+C16_Applies(c, r, v) == v.ok /\ c.virt = 1 /\ c.p4 \in {"valign", "pack"} /\ Cardinality(v.roots) = 1 /\ c.ls > 0     \* bands must be distinguishable, see C04
 AllYs(r) == {r.nodes[k].y : k \in DOMAIN r.nodes}
 BandK(r, y) == {k \in DOMAIN r.nodes : r.nodes[k].y = y}
 LeftOf(r, y)  == Min({r.nodes[k].x : k \in BandK(r, y)})
